@@ -33,6 +33,10 @@ type scriptConn struct {
 	writes   [][]byte
 	writeErr error
 	closed   int
+	// errAt >= 0: the read with that index returns its chunk together with chunkErr (io.Reader
+	// allows data and an error from the same call)
+	errAt    int
+	chunkErr error
 	// honourDeadlines: an armed read deadline makes a read without data time out
 	honourDeadlines bool
 	readDeadline    bool
@@ -49,8 +53,18 @@ func (c *scriptConn) Read(b []byte) (int, error) {
 	c.k++
 	copy(b, c.stream[c.pos:c.pos+n])
 	c.pos += n
+	if c.chunkErr != nil && c.k-1 == c.errAt {
+		return n, c.chunkErr
+	}
 	return n, nil
 }
+
+// timeoutErr: a net.Error whose Timeout() is true
+type timeoutErr struct{}
+
+func (timeoutErr) Error() string   { return "read tcp 127.0.0.1:1->127.0.0.1:2: i/o timeout" }
+func (timeoutErr) Timeout() bool   { return true }
+func (timeoutErr) Temporary() bool { return true }
 
 func (c *scriptConn) Write(b []byte) (int, error) {
 	if c.writeErr != nil {
@@ -199,6 +213,31 @@ func VerifC10_DeframeLongFrameSplitHeader() {
 	vr.Assert(len(m.Error) == 1, "failure-published-once")
 }
 
+// a read that returns bytes together with an error (a timeout, or a reset) in the middle of the
+// stream, more data afterwards: whatever is delivered is a prefix of the frames sent, each intact,
+// and if not everything was delivered the failure was published
+func VerifC10_DeframeReadWithError() {
+	stream, frames := c10stream(16)
+	c1 := vr.IntRange("cut1", 0, len(stream))
+	c2 := vr.IntRange("cut2", c1, len(stream))
+	conn := &scriptConn{stream: stream, chunks: []int{c1, c2 - c1, len(stream) - c2}, errAt: 1, finalErr: &scriptErr{"connection reset by peer"}}
+	if vr.Bool("timeout") {
+		conn.chunkErr = timeoutErr{}
+	} else {
+		conn.chunkErr = &scriptErr{"connection reset by peer"}
+	}
+	m := newTestStream(conn, len(frames)+1, nil)
+	m.inbound()
+	delivered := len(m.pool.Full)
+	vr.Assert(delivered <= len(frames), "no-more-buffers-than-frames")
+	for i := 0; i < delivered && i < len(frames); i++ {
+		b := <-m.pool.Full
+		vr.Assert(b.Len() == len(frames[i]), "frame-size-intact")
+		vr.Assert(vr.BytesEq(b.Bytes(), frames[i]), "frame-bytes-intact-and-in-order")
+	}
+	vr.Assert(delivered == len(frames) || len(m.Error) == 1, "short-delivery-only-with-a-published-failure")
+}
+
 // an explicit local close ends the reader without publishing an error
 func VerifC10_DeframeLocalClose() {
 	stream, frames := c10stream(12)
@@ -223,10 +262,16 @@ type copyParser struct {
 	calls  int
 	reject bool
 	stop   chan bool // told to stop once the frame has been seen (keeps the worker's select deterministic)
+	pool   *BufferPool
+	// buffers the reader could already refill while the parser is still looking at the frame
+	emptyAtParse int
 }
 
 func (p *copyParser) Parse(b []byte) (Message, error) {
 	p.calls++
+	if p.pool != nil {
+		p.emptyAtParse = len(p.pool.Empty)
+	}
 	if p.stop != nil {
 		p.stop <- true
 	}
@@ -256,7 +301,9 @@ func VerifC10_ParserWorker() {
 	buf.Write(frame)
 	m.pool.Full <- buf
 	p.stop = m.parserShutdown // the worker returns after handling the frame
+	p.pool = m.pool
 	m.parse()
+	vr.Assert(p.emptyAtParse == 0, "buffer-not-handed-back-before-the-parser-is-done")
 	vr.Assert(p.calls == 1, "parsed-exactly-once")
 	if !p.reject {
 		vr.Assert(len(m.Inbound) == 1, "exactly-one-message-delivered")
@@ -300,6 +347,17 @@ func (f *failMsg) Len() uint16                             { return 8 }
 func (f *failMsg) MarshalBinary() (data []byte, err error) { return nil, &scriptErr{"cannot encode"} }
 func (f *failMsg) UnmarshalBinary(data []byte) error       { return nil }
 
+// lenMsg: a message whose Len() is not the size of its encoding (a payload above 65535 bytes
+// wraps the 16-bit size): what goes on the wire is the encoding
+type lenMsg struct {
+	b []byte
+	l uint16
+}
+
+func (r *lenMsg) Len() uint16                             { return r.l }
+func (r *lenMsg) MarshalBinary() (data []byte, err error) { return r.b, nil }
+func (r *lenMsg) UnmarshalBinary(data []byte) error       { return nil }
+
 // what reached the wire, in order (empty writes put nothing on it)
 func (c *scriptConn) wire() []byte {
 	n := 0
@@ -330,6 +388,12 @@ func VerifC11_Outbound() {
 			// a message that cannot be encoded has no encoding: it puts nothing on the wire, and
 			// in particular not a second copy of an earlier message
 			m.Outbound <- &failMsg{}
+			continue
+		} else if vr.Bool("len-differs") {
+			b = vr.Bytes("msg", vr.IntRange("msglen", 8, 12))
+			want = append(want, b)
+			total += len(b)
+			m.Outbound <- &lenMsg{b, vr.U16("reported-len")}
 			continue
 		} else {
 			b = vr.Bytes("msg", vr.IntRange("msglen", 8, 12))
